@@ -4,6 +4,8 @@
 #include "rkcommon/tasking/parallel_for.h"
 #include "rkcommon/tasking/tasking_system_init.h"
 
+#include <thread>
+
 using namespace rkcommon::tasking;
 
 extern "C" void c13_run()
@@ -12,6 +14,9 @@ extern "C" void c13_run()
   bool inited = false;
   for (int i = 0; i < p->nops; i++) {
     const C13Op &op = p->ops[i];
+    // an application has more than one thread: the operation may be carried out by a helper thread that is started and
+    // joined for it (so the history stays sequential)
+    auto apply = [&]() {
     switch (op.kind) {
     case C13_INIT: {
       SimTag t(SIM_TAG_INFRA);
@@ -59,6 +64,13 @@ extern "C" void c13_run()
       c13_loop_end();
       break;
     }
+    }
+    };
+    if (p->hop_mask >> i & 1) {
+      std::thread helper(apply);
+      helper.join();
+    } else {
+      apply();
     }
   }
   sim_phase(3);
